@@ -522,6 +522,9 @@ EDGE_CASES = [
          num_exploits=50, num_privescs=20, seed=4),
     dict(num_hosts=8, num_services=3, num_os=2, num_processes=2, seed=6,
          alpha_V=0.1, alpha_H=0.1, lambda_V=6.0),
+    # the recorded finding KF-C15-alphaV1, exercised in every run
+    dict(num_hosts=8, num_services=3, num_os=2, num_processes=2, seed=0,
+         alpha_V=1.0, uniform=False),
 ]
 
 
